@@ -95,13 +95,15 @@ class Lit:
     """
 
     def __init__(self, name, kind, *, big=(), small=(), strict=None, key=None, sign=None, cells=(), op=None,
-                 conj=True, const=None, why="", conj_with=None, params_big=(), params_small=(), optional=False):
+                 conj=True, const=None, why="", conj_with=None, params_big=(), params_small=(), optional=False, alt=False):
         self.name, self.kind = name, kind
         self.big, self.small = set(big), set(small)
         self.strict, self.key, self.sign, self.cells, self.op = strict, key, sign, set(cells), op
         self.conj, self.const, self.why, self.conj_with = conj, const, why, conj_with
         self.params_big, self.params_small = set(params_big), set(params_small)
         self.optional = optional
+        self.alt = alt  # an *admitting alternative* (top-level disjunct): dropping it makes the mask tighter
+        self.single = False  # kind 'cell': the literal is one broadcast column (e.g. visited[..., 0:1]) instead of the per-node indicator
         self.params = set()
         self.side_check = None  # optional extra predicate (positive-side atoms, negative-side atoms) -> bool
 
@@ -131,7 +133,7 @@ def leaf_matches(leaf: nf.Leaf, lit: Lit) -> Tuple[bool, Optional[str]]:
             single = single or _single_column(n.args[1])
             n = nf.strip(n.args[0], bool_ctx=True)
         if n.op in ("cell0", "get0") and n.args[1] == lit.key:
-            if single:
+            if single != lit.single:
                 return False, "single-column"  # e.g. visited[..., 0:1]: one broadcast flag, not the per-node literal
             return True, None
         return False, None
